@@ -218,9 +218,20 @@ def r05_1(prog, out):
     if not parsers:
         raise CheckBroken("no fn(i32) -> Result<Option<Duration>, Status> found (deadline seconds parser)")
     expected = [(I32_MIN, -1, "Err:INVALID_ARGUMENT"), (0, 0, "None"), (1, 599, "Some(from_secs input)"), (600, I32_MAX, "Some(from_secs 600)")]
+    uncapped = [(I32_MIN, -1, "Err:INVALID_ARGUMENT"), (0, 0, "None"), (1, I32_MAX, "Some(from_secs input)")]
+    status = {}
     for pid in parsers:
         bi = prog.info(pid)
-        is_input = lambda o: o.kind == "param" and o.data == 1 and not o.path
+
+        def is_input(o, bi=bi):
+            if o.kind == "param" and o.data == 1 and not o.path:
+                return True
+            # the payload of `uN::try_from(input)`'s Ok is the input
+            if o.kind == "call" and o.path and o.path[0] == ("v", "Ok"):
+                c = bi.call_at(o.data)
+                if c.callee is not None and c.callee.path.split("::")[-1] in ("try_from", "try_into") and c.args:
+                    return is_input(bi.trace(c.args[0]))
+            return False
         w = IntervalWalker(prog, pid, is_input, "i32")
         paths = w.paths()
         key = "partition:%s" % prog.short(pid)
@@ -233,13 +244,68 @@ def r05_1(prog, out):
         got = merge_partition(items)
         diffs = compare_partitions(got, expected, secs_point_equiv)
         if not diffs:
+            status[pid] = "capped"
             out.holds(key, prog.loc(pid), "partition of i32 is %s" % got)
+        elif not compare_partitions(got, uncapped, secs_point_equiv):
+            # the conversion itself is right, the 600 s cap is not applied here: every place that turns the result into a
+            # deadline has to apply it (judged below, per site)
+            status[pid] = "uncapped"
+            out.holds(key, prog.loc(pid), "partition of i32 is %s; the cap at 600 s is left to the callers (see cap:*)" % got)
         else:
             if any("?" in g[2] for g in got):
                 out.undecided(key, prog.loc(pid), "a path produces a value the analysis cannot classify: %s" % got)
             else:
                 out.violation(key, prog.loc(pid), "seconds are mapped differently from the specification on %s" % "; ".join(diffs),
                               ["got      %s" % got, "expected %s" % expected])
+
+
+    # per site: the duration added to the clock for a DeadlineModification is at most 600 s
+    A = prog.anchors
+    sl = Slicer(prog)
+    dm_new = A.ty("DeadlineModification") + "::new"
+    for bid, b in prog.facts.bodies.items():
+        bi = prog.info(bid)
+        for bb, t in bi.calls(lambda c: c.target == dm_new):
+            s = sl.of_resolved(bid, t.args[1])
+            used = [p for p in parsers if p in s.calls]
+            if not used or not any(status.get(p) == "uncapped" for p in used):
+                continue
+            key = "cap:%s" % prog.short(bid)
+            consts = set()
+            for c in s.consts:
+                consts.add(c)
+                if isinstance(c, str) and c in prog.facts.consts and prog.facts.consts[c].get("ty") == "std::time::Duration":
+                    # a named constant of a non-scalar type (`const MAX: Duration = Duration::from_secs(600)`): rustc does not
+                    # hand out its value as a scalar, the initialiser is read from the item (whole seconds only)
+                    consts |= duration_const_secs(prog, prog.facts.consts[c])
+            lim = {c.split("::")[-1] for c in s.calls} & {"min", "clamp"}
+            if lim and any(str(c) == "600" for c in consts):
+                out.holds(key, bi.loc(bb), "the seconds parser used here does not cap; the duration passes through %s(.., 600 s) before it is added to the clock" % sorted(lim)[0])
+            elif lim:
+                out.undecided(key, bi.loc(bb), "the duration passes through %s() with a bound that is not the constant 600 (%s)" % (sorted(lim)[0], sorted(map(str, consts))[:4]))
+            else:
+                out.violation(key, bi.loc(bb), "the seconds parser used on this route (%s) does not cap at 600 s and nothing between it and the deadline does: "
+                              "ModifyAckDeadline with N > 600 moves the deadline N seconds away" % prog.short(used[0]))
+
+
+def duration_const_secs(prog, k):
+    """{seconds} of `const X: Duration = Duration::from_secs(<int literal or product of literals>)`; empty when it is anything else"""
+    import os, re
+    m = re.match(r"^(.*?):(\d+):\d+-(\d+):\d+$", k.get("span", ""))
+    if not m:
+        return set()
+    try:
+        lines = open(os.path.join(prog.facts.repo, m.group(1))).read().split("\n")[int(m.group(2)) - 1:int(m.group(3))]
+    except OSError:
+        return set()
+    text = " ".join(lines)
+    mm = re.search(r"=\s*(?:std::time::|core::time::)?Duration::from_secs\(\s*([0-9_]+(?:\s*\*\s*[0-9_]+)*)\s*\)\s*;", text)
+    if not mm:
+        return set()
+    v = 1
+    for f in mm.group(1).split("*"):
+        v *= int(f.strip().replace("_", ""))
+    return {v}
 
 
 def secs_point_equiv(a, b, v):
